@@ -163,6 +163,20 @@ def unit_bs_msgs(tier, seed):
                             tier, seed, 40000, 1500000)
 
 
+def unit_text(tier, seed):
+    import unit_text
+    return unit_text.run(tier, seed)
+
+
+def unit_bs_text(tier, seed):
+    import unit_standin
+    return unit_standin.run('text', ['text'], {'C17', 'C20'},
+                            'From<&str>/FromIterator for all capacities, message 1029 text (127 chars / 255 bytes limits, invalid UTF-8 => Corrupt), descriptor round trip through messages',
+                            tier, seed, 20000, 300000)
+
+
+UNITS['text'] = unit_text
+UNITS['bs_text'] = unit_bs_text
 UNITS['bs_msmrows'] = unit_bs_msmrows
 UNITS['bs_msgs'] = unit_bs_msgs
 
@@ -180,6 +194,7 @@ PROPERTY_UNITS['C15'] = ['l2', 'l1int', 'l0bits']
 PROPERTY_UNITS['C14'] = ['msgl3', 'frame']
 PROPERTY_UNITS['C12'] = ['msgl3', 'l0bits']
 PROPERTY_UNITS['C09'] = ['msgl3', 'l2', 'l1int', 'l1enc', 'bs_msgs', 'l0bits']
+PROPERTY_UNITS['C17'] = ['text', 'bs_text', 'l2', 'l0bits']
 PROPERTY_UNITS['C10'] = ['l2', 'sigtab', 'bs_msmrows', 'bs_msgs', 'l0bits']
 PROPERTY_UNITS['C02'] = ['frame', 'msgl3', 'l2', 'l1int', 'l1enc', 'bs_msgs', 'l0bits']
 
